@@ -26,6 +26,7 @@ RULE = (
 )
 RULE += '; programs may re-seed the global random generator; identifiers of all scopes of a case must be pairwise distinct'
 RULE += '; records must pass through the Logger object given to the scope; further outermost scopes after the first tree was released'
+RULE += '; child loggers of the outermost scope names exist beforehand; UUID-spelled own trace ids'
 LEVEL_TEXT = (
     "Reference walk: for every log call exactly one record must be captured, on the expected logger (own, else nearest "
     "enclosing, else the one named after the outermost scope; root logger outside any scope) and no other, at the "
@@ -57,6 +58,11 @@ def run_case(case) -> Outcome:
         from hv.props.c03 import _gc_fence
 
         _gc_fence()  # keeps the collections inside this case cheap
+    # somebody in the process has asked for a CHILD logger of every outermost scope's name (`getLogger("svc.database")` while
+    # the scope is called "svc"): the logging registry then holds a placeholder under the scope's own name
+    for op in case["body"]:
+        if op.get("k") == "scope" and op.get("name") and not op["name"].endswith(".") and "\x00" not in op["name"]:
+            logging.getLogger(op["name"] + ".hvchild")
     root = logging.getLogger()
     old_level = root.level
     root.setLevel(logging.DEBUG)
@@ -242,7 +248,8 @@ def strategy(tier):
     )
     sleep = st.builds(lambda t: {"k": "sleep", "t": t}, st.sampled_from([0.25, 0.5]))
     reseed = st.just({"k": "reseed", "n": 7})
-    trace = st.one_of(st.none(), st.none(), st.sampled_from(["t-1", "trace%s", "", "T2"]))
+    # own trace ids are opaque strings - also ones that happen to be spelled like a UUID (upper case, dashed, urn form)
+    trace = st.one_of(st.none(), st.none(), st.sampled_from(["t-1", "trace%s", "", "T2", "6F9619FF-8B86-D011-B42D-00C04FC964FF", "urn:uuid:6f9619ff-8b86-d011-b42d-00c04fc964ff", "{6F9619FF8B86D011B42D00C04FC964FF}"]))
 
     def blocks(children):
         spawn = st.builds(lambda b: {"k": "spawn", "via": "ctx", "body": b}, st.lists(st.one_of(logop, sleep, children), min_size=1, max_size=3))
